@@ -1,4 +1,134 @@
+// Kani harnesses for datafusion/execution/src/memory_pool/mod.rs (property C17):
+// the MemoryReservation ledger.  Invariant L: pool.reserved() == sum of the sizes of
+// the live reservations (+ `other`, bytes held by reservations outside the harness).
 #[allow(unused_qualifications, unused_imports, dead_code, clippy::all)]
 mod verif_kani {
     use super::*;
+    use std::sync::atomic::AtomicUsize;
+    const Q: usize = usize::MAX / 8;
+
+    /// pool double with a nondeterministic (but honest) try_grow: it either grants and adds, or
+    /// refuses and changes nothing -- exactly the contract proved for the real pools.  Using it
+    /// keeps the ledger proof modular: MemoryReservation is checked against the pool *contract*.
+    #[derive(Debug)]
+    struct ContractPool { used: AtomicUsize, grant: bool, registered: AtomicUsize }
+    impl Display for ContractPool {
+        fn fmt(&self, _f: &mut std::fmt::Formatter<'_>) -> std::fmt::Result { Ok(()) }
+    }
+    impl MemoryPool for ContractPool {
+        fn name(&self) -> &str { "contract" }
+        fn register(&self, _c: &MemoryConsumer) { self.registered.fetch_add(1, atomic::Ordering::Relaxed); }
+        fn unregister(&self, _c: &MemoryConsumer) { self.registered.fetch_sub(1, atomic::Ordering::Relaxed); }
+        fn grow(&self, _r: &MemoryReservation, a: usize) { self.used.fetch_add(a, atomic::Ordering::Relaxed); }
+        fn shrink(&self, _r: &MemoryReservation, s: usize) { self.used.fetch_sub(s, atomic::Ordering::Relaxed); }
+        fn try_grow(&self, _r: &MemoryReservation, a: usize) -> Result<()> {
+            if self.grant { self.used.fetch_add(a, atomic::Ordering::Relaxed); Ok(()) }
+            else { Err(datafusion_common::DataFusionError::ResourcesExhausted(String::new())) }
+        }
+        fn reserved(&self) -> usize { self.used.load(atomic::Ordering::Relaxed) }
+    }
+    fn stub_format(_a: std::fmt::Arguments<'_>) -> String { String::new() }
+
+    struct World { cp: Arc<ContractPool>, r1: MemoryReservation, r2: MemoryReservation, s1: usize, s2: usize, other: usize }
+    fn world() -> World {
+        let grant: bool = kani::any();
+        let cp = Arc::new(ContractPool { used: AtomicUsize::new(0), grant, registered: AtomicUsize::new(0) });
+        let pool: Arc<dyn MemoryPool> = cp.clone();
+        let r1 = MemoryConsumer::new("a").with_can_spill(kani::any()).register(&pool);
+        // second reservation: same consumer (shares the registration) or a different one
+        let r2 = if kani::any() { r1.new_empty() } else { MemoryConsumer::new("b").register(&pool) };
+        let (s1, s2, other): (usize, usize, usize) = (kani::any(), kani::any(), kani::any());
+        kani::assume(s1 <= Q && s2 <= Q && other <= Q);
+        r1.size.store(s1, atomic::Ordering::Relaxed);
+        r2.size.store(s2, atomic::Ordering::Relaxed);
+        cp.used.store(s1 + s2 + other, atomic::Ordering::Relaxed);
+        World { cp, r1, r2, s1, s2, other }
+    }
+
+    /// one ledger step (non-panicking domain) re-establishes L and changes the named
+    /// reservation by exactly the stated delta
+    #[kani::proof]
+    #[kani::unwind(3)]
+    #[kani::stub(std::fmt::format, stub_format)]
+    fn c17_ledger_step() {
+        let mut w = world();
+        let c: usize = kani::any();
+        kani::assume(c <= Q);
+        let op: u8 = kani::any();
+        kani::assume(op < 9);
+        let grant = w.cp.grant;
+        let mut extra: Option<MemoryReservation> = None;
+        let mut exp1 = w.s1; // expected size of r1 afterwards
+        match op {
+            0 => { w.r1.grow(c); exp1 = w.s1 + c; }
+            1 => {
+                let res = w.r1.try_grow(c);
+                let ok = res.is_ok();
+                std::mem::forget(res);
+                assert!(ok == grant, "C17.ledger.try_grow.outcome_is_pool_outcome");
+                exp1 = if ok { w.s1 + c } else { w.s1 }; // a failed growth attempt changes nothing
+            }
+            2 => { kani::assume(c <= w.s1); w.r1.shrink(c); exp1 = w.s1 - c; }
+            3 => {
+                let res = w.r1.try_shrink(c);
+                match &res {
+                    Ok(n) => { assert!(c <= w.s1 && *n == w.s1 - c, "C17.ledger.try_shrink.ok_returns_new_size"); exp1 = w.s1 - c; }
+                    Err(_) => { assert!(c > w.s1, "C17.ledger.try_shrink.err_only_beyond_size"); }
+                }
+                std::mem::forget(res);
+            }
+            4 => { let n = w.r1.free(); assert!(n == w.s1, "C17.ledger.free.returns_size"); exp1 = 0; }
+            5 => { w.r1.resize(c); exp1 = c; }
+            6 => {
+                let res = w.r1.try_resize(c);
+                let ok = res.is_ok();
+                std::mem::forget(res);
+                assert!(ok == (c <= w.s1 || grant), "C17.ledger.try_resize.fails_only_when_pool_refuses_growth");
+                exp1 = if ok { c } else { w.s1 };
+            }
+            7 => {
+                kani::assume(c <= w.s1);
+                let r3 = w.r1.split(c);
+                assert!(r3.size() == c, "C17.ledger.split.new_reservation_has_capacity");
+                exp1 = w.s1 - c;
+                extra = Some(r3);
+            }
+            _ => {
+                let r3 = w.r1.take();
+                assert!(r3.size() == w.s1, "C17.ledger.take.moves_everything");
+                exp1 = 0;
+                extra = Some(r3);
+            }
+        }
+        let e = match &extra { Some(r) => r.size(), None => 0 };
+        assert!(w.r1.size() == exp1, "C17.ledger.step.exact_delta_on_named_reservation");
+        assert!(w.r2.size() == w.s2, "C17.ledger.step.other_reservation_untouched");
+        assert!(w.cp.reserved() == w.r1.size() + w.r2.size() + e + w.other, "C17.ledger.step.reserved_equals_sum_of_live_reservations");
+        // dropping the split-off reservation returns exactly its bytes
+        drop(extra);
+        assert!(w.cp.reserved() == w.r1.size() + w.r2.size() + w.other, "C17.ledger.drop.returns_its_bytes");
+        kani::cover!(op == 1 && !grant);
+        kani::cover!(op == 3 && c > w.s1);
+        kani::cover!(op == 7 && c > 0);
+        kani::cover!(op == 6 && c > w.s1 && grant);
+        // dropping everything: reserved() goes back to the foreign bytes, every consumer unregistered
+        let World { cp, r1, r2, other, .. } = w;
+        drop(r1);
+        drop(r2);
+        assert!(cp.reserved() == other, "C17.ledger.drop_all.zero_once_all_dropped");
+        assert!(cp.registered.load(atomic::Ordering::Relaxed) == 0, "C17.ledger.drop_all.all_consumers_unregistered");
+    }
+
+    /// shrink / split beyond the size panic (nothing is handed out that was not reserved)
+    #[kani::proof]
+    #[kani::unwind(3)]
+    #[kani::should_panic]
+    #[kani::stub(std::fmt::format, stub_format)]
+    fn c17_ledger_shrink_beyond_size_panics() {
+        let w = world();
+        let c: usize = kani::any();
+        kani::assume(c > w.s1);
+        if kani::any() { w.r1.shrink(c); } else { let r3 = w.r1.split(c); std::mem::forget(r3); }
+        std::mem::forget(w);
+    }
 }
